@@ -28,6 +28,11 @@ def handle (op : String) (args : List String) : Option String :=
   | "trim", [a] => do
     let a ← parseArr? a
     some (showRes showArr (a.trimZeros 0))
+  -- value-class stream of `trim_zeros`: the second argument (the class codes of the lane, read by the harness only) is not
+  -- part of the model's input; the integer lane already holds 0 exactly at the positions whose class is a zero
+  | "trimc", [a, _codes] => do
+    let a ← parseArr? a
+    some (showRes showArr (a.trimZeros 0))
   | _, _ => none
 
 end Driver.C13
